@@ -17,6 +17,10 @@ package criteria_splitting
 //@   panics_iff [pivot_out_of_range] pivot(len(*sortedCriteria), *c) < 0 || pivot(len(*sortedCriteria), *c) > len(*sortedCriteria)
 //@   ensures [left]  fresh(result) && *result.Left == (*sortedCriteria)[0:pivot(len(*sortedCriteria), *c)]
 //@   ensures [right] *result.Right == (*sortedCriteria)[pivot(len(*sortedCriteria), *c):]
+//@   ensures [left_elements] result.Left != nil && len(*result.Left) == pivot(len(*sortedCriteria), *c) && forall k int :: 0 <= k && k < len(*result.Left) ==> (*result.Left)[k] == (*sortedCriteria)[k]
+//@   ensures [right_elements] result.Right != nil && len(*result.Right) == len(*sortedCriteria) - pivot(len(*sortedCriteria), *c)
+//@             && forall k int :: 0 <= k && k < len(*result.Right) ==> (*result.Right)[k] == (*sortedCriteria)[pivot(len(*sortedCriteria), *c) + k]
+//@   ensures [pivot_range] 0 <= pivot(len(*sortedCriteria), *c) && pivot(len(*sortedCriteria), *c) <= len(*sortedCriteria)
 
 //@ lemma [C15 C16] pivot_is_clamped_floor: forall n int, c CriteriaSplitCondition
 //@   requires n >= 0 && 0.0 <= c.Ratio && c.Ratio <= 1.0 && c.Min <= c.Max
